@@ -55,7 +55,8 @@ Definition stream_eqb (a b : stream) : bool :=
 Definition conn_eqb (a b : conn) : bool :=
   Bool.eqb (c_int_w a) (c_int_w b) &&&& Bool.eqb (c_ev_w a) (c_ev_w b)
   &&&& Bool.eqb (c_ftimer a) (c_ftimer b) &&&& Bool.eqb (c_btimer a) (c_btimer b)
-  &&&& Bool.eqb (c_h2 a) (c_h2 b) &&&& Bool.eqb (c_closed a) (c_closed b).
+  &&&& Bool.eqb (c_h2 a) (c_h2 b) &&&& Bool.eqb (c_closed a) (c_closed b)
+  &&&& Bool.eqb (c_bparked a) (c_bparked b) &&&& Bool.eqb (c_bdirty a) (c_bdirty b).
 Definition st_eqb (a b : st) : bool := conn_eqb (snd a) (snd b) &&&& stream_eqb (fst a) (fst b).
 
 Ltac split_ifs H :=
@@ -105,12 +106,12 @@ Definition all_causes : list cause :=
 Definition all_inputs : list input :=
   [IReqHead; IReqHeadBody; IReqBodyEnd; IConnect None] ++ map (fun k => IConnect (Some k)) all_causes ++
   [IReqSent; IBack1xx false; IBack1xx true; IBack101; IBackPartial; IBackHead; IBackEnd; IBackNoKeepAlive; IBackClose; IBackGarbage;
-   IFrontWrite true; IFrontWrite false; IFrontTimeout; IBackTimeout; IClientClose].
+   IFrontWrite true; IFrontWrite false; IFrontTimeout; IBackTimeout; IClientCancel; IClientClose].
 
 Lemma all_inputs_complete : forall i, In i all_inputs.
 Proof.
   intros i; unfold all_inputs, all_causes; cbn.
-  destruct i as [ | | | [k|] | | [|] | | | | | | | | [|] | | | ]; try destruct k;
+  destruct i as [ | | | [k|] | | [|] | | | | | | | | [|] | | | | ]; try destruct k;
     repeat (try (left; reflexivity); right).
 Qed.
 
@@ -323,10 +324,16 @@ Definition is_relay_start (e : ev) := match e with EvRelayStart => true | _ => f
 Definition p_head_gate (x : st) (i : input) : bool :=
   implb (has_ev is_relay_start (evs x i)) (is_main_phase (s_phase (fst x))).
 
+(** backend-connection reuse: a connection is only parked when it owes nothing, and no request is
+    ever attached to a connection that still owes bytes of another response *)
+Definition is_crosstalk (e : ev) := match e with EvCrossTalk => true | _ => false end.
+Definition p_reuse (x : st) (i : input) : bool :=
+  negb (has_ev is_crosstalk (evs x i)) && negb (c_bdirty (snd (nxt x i))).
+
 Definition p_all (x : st) (i : input) : bool :=
   p_monitor x i && p_relay_clean x i && p_clean_source x i && p_truncated x i && p_timer x i
   && p_front_timeout x i && p_back_close x i && p_connect x i && p_budget x i && p_armed x i
-  && p_close_delim x i && p_abort_started x i && p_isolation x i && p_early x i && p_head_gate x i.
+  && p_close_delim x i && p_abort_started x i && p_isolation x i && p_early x i && p_head_gate x i && p_reuse x i.
 
 End WithRedirect.
 
@@ -421,7 +428,8 @@ Lemma split_p_all x i :
   p_truncated redir x i = true /\ p_timer redir x i = true /\ p_front_timeout redir x i = true /\
   p_back_close redir x i = true /\ p_connect redir x i = true /\ p_budget redir x i = true /\
   p_armed redir x i = true /\ p_close_delim redir x i = true /\ p_abort_started redir x i = true /\
-  p_isolation redir x i = true /\ p_early redir x i = true /\ p_head_gate redir x i = true.
+  p_isolation redir x i = true /\ p_early redir x i = true /\ p_head_gate redir x i = true /\
+  p_reuse redir x i = true.
 Proof.
   unfold p_all; intros H.
   repeat (apply andb_true_iff in H as [H ?]). repeat split; assumption.
@@ -516,7 +524,7 @@ Proof.
       set (y := run_st redir (fresh, init_conn h2) hist).
       assert (Hy : In y reach0) by (apply run_st_in_reach, init_in_reach).
       pose proof (local redir y i Hy) as L. apply split_p_all in L.
-      destruct L as (_ & _ & _ & _ & _ & _ & _ & _ & L & _ & _ & _ & _ & _ & _).
+      destruct L as (_ & _ & _ & _ & _ & _ & _ & _ & L & _ & _ & _ & _ & _ & _ & _).
       unfold p_budget in L. apply Nat.leb_le in L. exact L.
 Qed.
 
@@ -613,7 +621,7 @@ Proof.
   intros redir history i b x Hin.
   assert (Hx : In x reach0) by (apply run_st_in_reach, init_in_reach).
   pose proof (local redir x i Hx) as L. apply split_p_all in L.
-  destruct L as (_ & _ & _ & _ & _ & _ & _ & _ & _ & _ & _ & L & _ & _ & _).
+  destruct L as (_ & _ & _ & _ & _ & _ & _ & _ & _ & _ & _ & L & _ & _ & _ & _).
   unfold p_abort_started in L.
   assert (Hh : c_h2 (snd x) = false) by (subst x; apply h2_constant).
   rewrite Hh in L. cbn [orb] in L. rewrite forallb_forall in L. exact (L _ Hin).
@@ -633,7 +641,7 @@ Proof.
     set (y := run_st redir (fresh, init_conn h2) hist).
     assert (Hy : In y reach0) by (apply run_st_in_reach, init_in_reach).
     pose proof (local redir y i Hy) as L. apply split_p_all in L.
-    destruct L as (_ & _ & _ & _ & L1 & _ & _ & _ & _ & L2 & _ & _ & _ & _ & _).
+    destruct L as (_ & _ & _ & _ & L1 & _ & _ & _ & _ & L2 & _ & _ & _ & _ & _ & _).
     split.
     + intros Hc. unfold p_timer in L1. rewrite Hc in L1. exact L1.
     + intros Hc Hp Hm. unfold p_armed in L2. rewrite Hc, Hp, Hm in L2. cbn in L2.
@@ -649,7 +657,7 @@ Proof.
   intros redir h2 history i x Hr Hh Hk.
   assert (Hx : In x reach0) by (apply run_st_in_reach, init_in_reach).
   pose proof (local redir x i Hx) as L. apply split_p_all in L.
-  destruct L as (_ & _ & _ & _ & _ & _ & _ & _ & _ & _ & L & _ & _ & _ & _).
+  destruct L as (_ & _ & _ & _ & _ & _ & _ & _ & _ & _ & L & _ & _ & _ & _ & _).
   unfold p_close_delim, has_ev in L. rewrite Hr, Hh, Hk in L. cbn in L.
   apply andb_true_iff in L. exact L.
 Qed.
@@ -658,21 +666,21 @@ Qed.
     is arbitrary.  A backend-side input on j leaves i untouched, keeps the shared
     connection open, its timer armed and WRITABLE where it was. *)
 Lemma isolation_proof :
-  forall (redir : option N) (history : list input) (si : stream) (i : input) (bti : bool),
+  forall (redir : option N) (history : list input) (si : stream) (i : input) (bti bpi bdi : bool),
     let x := run_st redir (fresh, init_conn true) history in
     let k := mkC2 (c_h2 (snd x)) (c_int_w (snd x)) (c_ev_w (snd x)) (c_ftimer (snd x)) (c_closed (snd x))
-                  bti (c_btimer (snd x)) in
+                  bti (c_btimer (snd x)) bpi bdi (c_bparked (snd x)) (c_bdirty (snd x)) in
     backend_side i = true -> c_closed (snd x) = false ->
     let '(si', sj', k', e) := step2 gen_tables redir si (fst x) k false i in
-    si' = si /\ k_bt1 k' = bti /\ k_h2 k' = true /\ k_closed k' = false /\
+    si' = si /\ k_bt1 k' = bti /\ k_bp1 k' = bpi /\ k_bd1 k' = bdi /\ k_h2 k' = true /\ k_closed k' = false /\
     (k_ftimer k = true -> k_ftimer k' = true) /\
     (k_int_w k = true -> k_int_w k' = true) /\ (k_ev_w k = true -> k_ev_w k' = true) /\
     e = evs redir x i /\ sj' = fst (nxt redir x i).
 Proof.
-  intros redir history si i bti x k Hb Hc.
+  intros redir history si i bti bpi bdi x k Hb Hc.
   assert (Hx : In x reach0) by (apply run_st_in_reach, init_in_reach).
   pose proof (local redir x i Hx) as L. apply split_p_all in L.
-  destruct L as (_ & _ & _ & _ & _ & _ & _ & _ & _ & _ & _ & _ & L & _ & _).
+  destruct L as (_ & _ & _ & _ & _ & _ & _ & _ & _ & _ & _ & _ & L & _ & _ & _).
   unfold p_isolation in L. rewrite Hb, Hc in L.
   assert (Hview : view k false = snd x).
   { subst k. unfold view; cbn. destruct (snd x); reflexivity. }
@@ -686,8 +694,8 @@ Proof.
   apply andb_true_iff in L as [L L5]. apply andb_true_iff in L as [L L4].
   apply andb_true_iff in L as [L L3]. apply andb_true_iff in L as [L1 L2].
   apply negb_true_iff in L1. apply Bool.eqb_prop in L5.
-  subst k; cbn [merge k_bt1 k_h2 k_closed k_ftimer k_int_w k_ev_w].
-  refine (conj eq_refl (conj eq_refl (conj _ (conj L1 (conj _ (conj _ (conj _ (conj eq_refl eq_refl)))))))).
+  subst k; cbn [merge k_bt1 k_bp1 k_bd1 k_h2 k_closed k_ftimer k_int_w k_ev_w].
+  refine (conj eq_refl (conj eq_refl (conj eq_refl (conj eq_refl (conj _ (conj L1 (conj _ (conj _ (conj _ (conj eq_refl eq_refl)))))))))).
   - symmetry; exact L5.
   - intros Ht. rewrite Ht in L2. exact L2.
   - intros Ht. rewrite Ht in L3. exact L3.
@@ -703,7 +711,7 @@ Proof.
   intros redir history i x Hr Ho.
   assert (Hx : In x reach0) by (apply run_st_in_reach, init_in_reach).
   pose proof (local redir x i Hx) as L. apply split_p_all in L.
-  destruct L as (_ & _ & _ & _ & _ & _ & _ & _ & _ & _ & _ & _ & _ & L & _).
+  destruct L as (_ & _ & _ & _ & _ & _ & _ & _ & _ & _ & _ & _ & _ & L & _ & _).
   unfold p_early, has_ev in L.
   assert (Hh : c_h2 (snd x) = false) by (subst x; apply h2_constant).
   rewrite Hr, Hh, Ho in L. cbn in L. apply andb_true_iff in L as [L1 L2].
@@ -718,6 +726,19 @@ Proof.
   intros redir h2 history i x Hr.
   assert (Hx : In x reach0) by (apply run_st_in_reach, init_in_reach).
   pose proof (local redir x i Hx) as L. apply split_p_all in L.
-  destruct L as (_ & _ & _ & _ & _ & _ & _ & _ & _ & _ & _ & _ & _ & _ & L).
+  destruct L as (_ & _ & _ & _ & _ & _ & _ & _ & _ & _ & _ & _ & _ & _ & L & _).
   unfold p_head_gate, has_ev in L. rewrite Hr in L. exact L.
+Qed.
+
+Lemma no_cross_request_bytes_proof :
+  forall (redir : option N) (h2 : bool) (history : list input) (i : input),
+    let x := run_st redir (fresh, init_conn h2) history in
+    existsb is_crosstalk (evs redir x i) = false /\ c_bdirty (snd (nxt redir x i)) = false.
+Proof.
+  intros redir h2 history i x.
+  assert (Hx : In x reach0) by (apply run_st_in_reach, init_in_reach).
+  pose proof (local redir x i Hx) as L. apply split_p_all in L.
+  destruct L as (_ & _ & _ & _ & _ & _ & _ & _ & _ & _ & _ & _ & _ & _ & _ & L).
+  unfold p_reuse, has_ev in L. apply andb_true_iff in L as [L1 L2].
+  apply negb_true_iff in L1. apply negb_true_iff in L2. split; assumption.
 Qed.
